@@ -9,10 +9,18 @@ if grep -rnE '\b(Admitted|admit|Axiom|Parameter|Conjecture|Admit Obligations)\b|
   echo "setup: forbidden construct in the Coq development" >&2
   exit 1
 fi
-python3 tools/translate.py /repo coq/Gen/Tables.v
-cd coq
-coq_makefile -f _CoqProject -o Makefile
-timeout 3000 make -j16
-cd ../ocaml
-ocamlfind ocamlopt -w -a -O3 -package str model.mli model.ml driver.ml -o driver
+# translate /repo, regenerate _CoqProject/Makefile, full .vo build, all extracted drivers
+/venv/bin/python - <<'PY'
+import sys, os, glob
+sys.path.insert(0, os.getcwd())
+from harness import common
+print(common.translate().strip())
+rc, out = common.make([], timeout=3000)
+print(out[-3000:])
+if rc != 0:
+    sys.exit("setup: coq build failed")
+for f in sorted(glob.glob("coq/Extract/Extract*.v")):
+    name = os.path.basename(f)[len("Extract"):-2].lower()
+    print("driver", name, common.build_driver(name))
+PY
 echo "setup: ok"
